@@ -84,6 +84,7 @@
 	__CPROVER_loop_invariant(12 <= G.next_off && G.next_off <= g_usable && (char *)jdbt == (char *)jdb_buf + G.next_off) \
 	__CPROVER_loop_invariant((G.ntags == 0) == (G.next_off == 12)) \
 	__CPROVER_loop_invariant(jdb_blk == G.desc_slot && curr_blk == jdb_blk + 1 + G.ntags) \
+	__CPROVER_loop_invariant(G.desc_slot >= IN.trans_block && G.ntags <= i && (i == 0 || G.ntags >= 1) && G.desc_slot - IN.trans_block <= 2 * i && G.desc_slot - IN.trans_block + G.ntags <= 2 * i) \
 	__CPROVER_loop_invariant(JW_BE32(jdb_buf, 0) == JW_MAGIC && JW_BE32(jdb_buf, 4) == JW_BT_DESCRIPTOR && JW_BE32(jdb_buf, 8) == g_tid) \
 	__CPROVER_loop_invariant(!(g_kd >= 12 && g_kd < G.next_off) || B(jdb_buf)[g_kd] == G.desc_wit) \
 	__CPROVER_decreases(block_len - i)
@@ -102,77 +103,79 @@
 #define JW_WANT_FREAD
 #include "jw_stubs.h"
 
-static void jw_on_read(struct buffer_head *bh, unsigned long long logical)
+static struct jw_ghost jw_on_read(struct jw_ghost g, struct buffer_head *bh, unsigned long long logical)
 {
 	CHECK(0, "journal_add_blocks_to_trans reads nothing from the journal");
+	return g;
 }
 
-static void jw_on_write(struct buffer_head *bh, unsigned long long logical)
+static struct jw_ghost jw_on_write(struct jw_ghost g, struct buffer_head *bh, unsigned long long logical)
 {
 	if (bh == JW_DATA_BH) {
-		const unsigned char *t = G.tag;
-		int first = (G.next_off == 12);
-		int escaped = (G.orig_w0 == JW_MAGIC);
-		unsigned long long idx = G.nread - 1;
+		const unsigned char *t = g.tag;
+		int first = (g.next_off == 12);
+		int escaped = (g.orig_w0 == JW_MAGIC);
+		unsigned long long idx = g.nread - 1;
 		unsigned int flags;
-		G.n_data++;
+		g.n_data++;
 		/* (csum) */
-		CHECK(G.phase == 2, "data block: read, then tag checksum set, then written - once each");
-		CHECK(G.csum_w0 == (escaped ? 0 : G.orig_w0) && G.csum_k == ((escaped && g_k < 4) ? 0 : G.orig_k),
+		CHECK(g.phase == 2, "data block: read, then tag checksum set, then written - once each");
+		CHECK(g.csum_w0 == (escaped ? 0 : g.orig_w0) && g.csum_k == ((escaped && g_k < 4) ? 0 : g.orig_k),
 		      "the tag checksum was taken over the ESCAPED image (first word zero iff the record starts with the jbd2 magic)");
-		CHECK(JW_BE32(bh->b_data, 0) == G.csum_w0 && B(bh->b_data)[g_k] == G.csum_k,
+		CHECK(JW_BE32(bh->b_data, 0) == g.csum_w0 && B(bh->b_data)[g_k] == g.csum_k,
 		      "the bytes written to the log are the bytes the tag checksum was taken over");
 		/* (escape) */
-		CHECK(B(bh->b_data)[g_k] == ((escaped && g_k < 4) ? 0 : G.orig_k), "log image = record read, except the zeroed magic");
+		CHECK(B(bh->b_data)[g_k] == ((escaped && g_k < 4) ? 0 : g.orig_k), "log image = record read, except the zeroed magic");
 		/* (tag) */
-		CHECK(t == B(JW_META_BH->b_data) + G.next_off, "the tag is where the format's walk expects it");
-		CHECK(G.next_off + g_tb + (first ? 16 : 0) <= g_usable, "tag (and UUID) end inside the usable area of the descriptor block");
+		CHECK(t == B(JW_META_BH->b_data) + g.next_off, "the tag is where the format's walk expects it");
+		CHECK(g.next_off + g_tb + (first ? 16 : 0) <= g_usable, "tag (and UUID) end inside the usable area of the descriptor block");
 		CHECK(idx < IN.len && jw_tag_block(g_ver, g_incompat, t) == g_list[idx], "tag block number = block_list[i] (32/64-bit split per feature)");
 		flags = (escaped ? JW_FLAG_ESCAPE : 0) | (first ? 0 : JW_FLAG_SAME_UUID) | (idx == IN.len - 1 ? JW_FLAG_LAST_TAG : 0);
 		CHECK(JW_TAG_FLAGS(t) == flags, "tag flags = ESCAPE iff escaped | SAME_UUID iff not first in block | LAST_TAG iff last block");
 		if (g_v3)
-			CHECK(JW_BE32(t, 12) == G.csum_val, "v3: the checksum the routine stored is in tag+12");
+			CHECK(JW_BE32(t, 12) == g.csum_val, "v3: the checksum the routine stored is in tag+12");
 		else if (g_csum_on)
-			CHECK(JW_BE16(t, 4) == (G.csum_val & 0xFFFFu), "v2: the checksum the routine stored is in tag+4");
+			CHECK(JW_BE16(t, 4) == (g.csum_val & 0xFFFFu), "v2: the checksum the routine stored is in tag+4");
 #ifdef JW_CHECK_UUID
 		if (first)
 			CHECK(t[g_tb + g_ku] == g_jsb[JW_SB_UUID + g_ku], "the first tag of a descriptor block is followed by the journal UUID");
 #endif
 		/* (place) */
-		CHECK(logical == G.desc_slot + 1 + G.ntags, "data block k of a descriptor block is written k+1 blocks behind it");
+		CHECK(logical == g.desc_slot + 1 + g.ntags, "data block k of a descriptor block is written k+1 blocks behind it");
 		if (escaped) REACH("escaped block written");
 		if (first) REACH("first tag"); else REACH("later tag");
 		/* the tag (and the UUID area behind a first tag) is complete: from now on it is frozen */
-		if (g_kd >= G.next_off && g_kd < G.next_off + g_tb + (first ? 16 : 0))
-			G.desc_wit = B(JW_META_BH->b_data)[g_kd];
-		G.next_off += g_tb + (first ? 16 : 0);
-		G.ntags++;
-		G.phase = 0;
+		if (g_kd >= g.next_off && g_kd < g.next_off + g_tb + (first ? 16 : 0))
+			g.desc_wit = B(JW_META_BH->b_data)[g_kd];
+		g.next_off += g_tb + (first ? 16 : 0);
+		g.ntags++;
+		g.phase = 0;
 	} else if (bh == JW_META_BH) {
-		G.n_desc++;
+		g.n_desc++;
 		CHECK(JW_BE32(bh->b_data, 0) == JW_MAGIC && JW_BE32(bh->b_data, 4) == JW_BT_DESCRIPTOR && JW_BE32(bh->b_data, 8) == g_tid,
 		      "descriptor block header: magic, blocktype 1, the transaction's sequence");
-		CHECK(G.ntags >= 1, "a descriptor block describes at least one block");
-		CHECK(logical == G.desc_slot, "descriptor block written at its slot: directly before its data blocks, directly behind the previous ones");
-		CHECK(G.phase == 0, "no data block pending");
+		CHECK(g.ntags >= 1, "a descriptor block describes at least one block");
+		CHECK(logical == g.desc_slot, "descriptor block written at its slot: directly before its data blocks, directly behind the previous ones");
+		CHECK(g.phase != 2, "no data block between its tag checksum and its write (one may have been read: it goes into the next descriptor block)");
 		if (g_csum_on)
 			JW_CHECK_SEALED(bh);
-		G.sealed = 0;
-		if (g_kd >= 12 && g_kd < G.next_off)
-			CHECK(B(bh->b_data)[g_kd] == G.desc_wit, "every completed tag reaches the log as it was when its data block was written");
-		G.desc_slot = G.desc_slot + 1 + G.ntags;
-		G.ntags = 0;
-		G.next_off = 12;
+		g.sealed = 0;
+		if (g_kd >= 12 && g_kd < g.next_off)
+			CHECK(B(bh->b_data)[g_kd] == g.desc_wit, "every completed tag reaches the log as it was when its data block was written");
+		g.desc_slot = g.desc_slot + 1 + g.ntags;
+		g.ntags = 0;
+		g.next_off = 12;
 	} else {
 		CHECK(0, "write of an unknown buffer");
 	}
+	return g;
 }
 
 void h_add_blocks(void)
 {
 	jw_build();
 	ASSUME(IN.len <= JW_MAXLEN);
-	g_list = malloc(JW_MAXLEN * sizeof(blk64_t));	/* arbitrary content */
+	g_list = malloc((IN.len + 1) * sizeof(blk64_t));	/* arbitrary content; symbolic size: the verifier must not flatten it */
 	ASSUME(g_list != 0);
 	g_fp = (FILE *)malloc(1);
 	ASSUME(g_fp != 0);
